@@ -84,7 +84,7 @@ def parse_val(tok: str):
 
 class Check:
     def __init__(self, prop: str, tier: str, seed: int, *, kernels=(), theorems=(), lean_modules=(),
-                 rule: str = "", level: str = "proof", assumptions=()):
+                 rule: str = "", level: str = "proof", assumptions=(), purity_files=None):
         self.prop = prop
         self.tier = tier
         self.seed = seed
@@ -103,6 +103,18 @@ class Check:
         self.tie_breaks = []       # (a) impl vs model-of-impl disagreements / broken obligations
         self.violations = []       # (b) impl vs spec disagreements: concrete failing inputs
         self.known_hits = {}
+        # hidden-state inventory of the files the property is anchored in (DESIGN 0.8): one obligation per file
+        if purity_files is None:
+            purity_files = []
+            for l in (VERIF / "properties.jsonl").read_text().splitlines():
+                d = json.loads(l)
+                if d["id"] == prop:
+                    purity_files = [f[4:] if f.startswith("src/") else f for f in d["anchors"].get("files", [])]
+        exp = json.loads((VERIF / "lean" / "purity_expected.json").read_text()) if (VERIF / "lean" / "purity_expected.json").exists() else {}
+        self.purity = {rel: exp[rel] for rel in purity_files if rel in exp}
+        if self.purity and "k_purity" not in self.kernels:
+            self.kernels.append("k_purity")
+        self.theorems += [f"Yaw.Purity.{v['name']}" for v in self.purity.values()]
         self.obligations = len(self.theorems)
         self.discharged = 0
         self.audit = {}
@@ -145,7 +157,9 @@ class Check:
                 m = FORBIDDEN.search(strip_comments(p.read_text()))
                 if m:
                     self.tie_breaks.append({"kind": "forbidden-construct", "file": str(p), "what": m.group(0)})
-            mods = self.lean_modules
+            mods = list(self.lean_modules)
+            if self.purity:
+                mods.append("YawVerif.Generated.Purity")
             r = run(["lake", "build", *mods], cwd=LEAN, timeout=3600)
             self.extra["lake_build_rc"] = r.returncode
             build_ok = r.returncode == 0
@@ -158,7 +172,12 @@ class Check:
                 audit_dir = LEAN / ".lake" / "audit"
                 audit_dir.mkdir(parents=True, exist_ok=True)
                 f = audit_dir / f"Audit_{self.prop}.lean"
-                body = "".join(f"import {m}\n" for m in mods) + "".join(f"#print axioms {t}\n" for t in self.theorems)
+                body = "".join(f"import {m}\n" for m in mods)
+                # the inventory obligations are stated here (expected values: lean/purity_expected.json, committed) so that
+                # one changed file does not take the obligations of the other files down with it
+                for v in self.purity.values():
+                    body += (f"theorem Yaw.Purity.{v['name']} : Yaw.Gen.{v['name']} = \"{v['hash']}\" := by decide\n")
+                body += "".join(f"#print axioms {t}\n" for t in self.theorems)
                 f.write_text(body)
                 r2 = run(["lake", "env", "lean", str(f)], cwd=LEAN, timeout=1800)
                 out = r2.stdout + r2.stderr
@@ -173,12 +192,29 @@ class Check:
                         self.audit[t] = "missing"
                         continue
                     bad = axs - ALLOWED_AXIOMS
+                    if t.startswith("Yaw.Purity.") and "sorryAx" in axs:
+                        self.audit[t] = "missing"        # `decide` failed: the inventory differs (diff reported below)
+                        continue
                     self.audit[t] = sorted(axs)
                     if bad:
                         self.tie_breaks.append({"kind": "forbidden-axiom", "theorem": t, "axioms": sorted(bad)})
                     else:
                         self.discharged += 1
                 missing = [t for t, v in self.audit.items() if v == "missing"]
+                pur_missing = [t for t in missing if t.startswith("Yaw.Purity.")]
+                if pur_missing:
+                    # name what changed: entries of the current inventory vs the committed one
+                    try:
+                        cur = json.loads((LEAN / "YawVerif" / "Generated" / "purity.json").read_text())
+                    except (OSError, ValueError):
+                        cur = {}
+                    diff = {}
+                    for rel, v in self.purity.items():
+                        if f"Yaw.Purity.{v['name']}" in pur_missing:
+                            a, b = set(v["entries"]), set(cur.get(rel, []))
+                            diff[rel] = {"added": sorted(b - a), "removed": sorted(a - b)}
+                    self.tie_breaks.append({"kind": "state-inventory-changed", "theorems": pur_missing, "changes": diff})
+                    missing = [t for t in missing if t not in pur_missing]
                 if missing and build_ok:
                     self.tie_breaks.append({"kind": "theorem-missing", "theorems": missing})
                 elif missing and not any(tb["kind"] == "proof-obligation-broken" for tb in self.tie_breaks):
